@@ -55,6 +55,11 @@ Example C09_example :
   visited gen_visit_table e = [3; 5; 6; 6; 8]%N /\ refs e = [3; 5; 6; 6; 8]%N.
 Proof. vm_compute. split; reflexivity. Qed.
 
+(* every bound mem_fun factory types its functor after the object's class *)
+Theorem C09_gen_mem_fun_typed_after_object : memfun_class_ok gen_memfun_class = true.
+Proof. vm_compute. reflexivity. Qed.
+Print Assumptions C09_gen_mem_fun_typed_after_object.
+
 (* signal_connect() forwards to connect(ptr_fun / mem_fun) with its own parameters: the slots it makes
    are those of the model *)
 Theorem C09_gen_signal_connect_forwards : signal_connect_ok gen_signal_connect = true.
